@@ -65,7 +65,7 @@ def main():
         if ok:
             os.makedirs(dest, exist_ok=True)
             for f in ('patch.diff', 'demo.py', 'NOTES.md'):
-                if os.path.exists(os.path.join(src, f)):
+                if os.path.exists(os.path.join(src, f)) and os.path.abspath(src) != os.path.abspath(dest):
                     shutil.copy(os.path.join(src, f), os.path.join(dest, f))
             notes = ''
             if os.path.exists(os.path.join(src, 'NOTES.md')):
